@@ -360,6 +360,18 @@ impl<'tcx> Extract<'tcx> {
                 if let ty::FnDef(did, args) = t.kind() {
                     o.push(("fn", self.callee(*did, args)));
                 }
+                // a named constant (`usize::BITS`, a local `const TOP_BIT: u32 = ..`) of integer type whose value does not
+                // depend on a generic parameter: also give the value it evaluates to
+                if let rustc_middle::mir::Const::Unevaluated(..) = c.const_ {
+                    if t.is_integral() {
+                        let env = TypingEnv::post_analysis(self.tcx, self.cur_owner.get());
+                        if let Some(si) = c.const_.try_eval_scalar_int(self.tcx, env) {
+                            let bits = si.to_bits(si.size());
+                            let v = if t.is_signed() { format!("{}", si.size().sign_extend(bits) as i128) } else { format!("{}", bits) };
+                            o.push(("eval", J::s(format!("const {}_{}", v, t))));
+                        }
+                    }
+                }
                 J::Obj(o)
             }
             #[allow(unreachable_patterns)]
